@@ -47,6 +47,19 @@ type limRes struct {
 }
 
 func nestedDoc(shape string, depth int, closed bool) string {
+	if strings.HasSuffix(shape, "sib") {
+		// the root container gets one more member after the deep chain: what the traversal touches after
+		// it has come back from the bound
+		base := strings.TrimSuffix(shape, "sib")
+		d := nestedDoc(base, depth, closed)
+		if !closed || depth == 0 {
+			return d
+		}
+		if d[len(d)-1] == ']' {
+			return d[:len(d)-1] + ",1]"
+		}
+		return d[:len(d)-1] + `,"b":1}`
+	}
 	var sb strings.Builder
 	sb.Grow(depth*8 + 16)
 	open := func(i int) {
@@ -184,7 +197,7 @@ func limRun(c *limCase) (outcome, detail string, err error, inLen int) {
 	case "get":
 		_, err = sonic.GetFromString(doc)
 	case "get_path":
-		if c.Shape == "obj" {
+		if strings.HasPrefix(c.Shape, "obj") {
 			_, err = sonic.GetFromString(doc, "a")
 		} else {
 			_, err = sonic.GetFromString(doc, 0)
@@ -221,7 +234,7 @@ func limRun(c *limCase) (outcome, detail string, err error, inLen int) {
 	case "marshal_deep":
 		var root interface{} = 1
 		for i := 0; i < c.Depth; i++ {
-			if c.Shape == "obj" || (c.Shape == "mixed" && i%2 == 1) {
+			if strings.HasPrefix(c.Shape, "obj") || (strings.HasPrefix(c.Shape, "mixed") && i%2 == 1) {
 				root = map[string]interface{}{"a": root}
 			} else {
 				root = []interface{}{root}
